@@ -51,7 +51,8 @@ pub fn value_corpus(k: usize, cap: usize, per_shape_limit: usize) -> Vec<(Shape,
         .collect();
     // byte arrays at COBS / length-varint boundaries, zero-free and with zeros
     let mut bv = vec![];
-    for len in [0usize, 1, 126, 127, 128, 253, 254, 255, 508, 509] {
+    // (252 and 506 make the PLAIN encoding - 2-byte length prefix included - exactly 254 and 508 bytes)
+    for len in [0usize, 1, 126, 127, 128, 251, 252, 253, 254, 255, 506, 507, 508, 509] {
         bv.push(Val::Bytes(vec![0x11; len]));
         if len > 2 {
             let mut z = vec![0x22; len];
